@@ -40,7 +40,14 @@ func (f *format) rtRun(cfg int, evs []event) string {
 		}
 		return fmt.Sprintf("B %s E %s", hexTok(w.bytes()), e)
 	}
-	p := f.parseRun("P", -1, [][]byte{w.bytes()})
+	// the entry point that reads the image back is a function of its bytes: whole buffer, string,
+	// io.Reader (one read, with or without io.EOF arriving together with the data)
+	h := uint64(1469598103934665603)
+	for _, b := range w.bytes() {
+		h = (h ^ uint64(b)) * 1099511628211
+	}
+	mode := []string{"P", "P", "S", "R", "E"}[(h>>20)%5]
+	p := f.parseRun(mode, -1, [][]byte{w.bytes()})
 	return fmt.Sprintf("B %s E - %s", hexTok(w.bytes()), stripDepth(p))
 }
 
